@@ -135,4 +135,38 @@ PROPS = {
                      "parser primitives _p_astring/_p_simple_string may return any string"],
         not_decided="create/delete/rename/list call sites (bounded only)",
     ),
+    "C01": dict(
+        design_ref="DESIGN.md 7 C01",
+        technique="contract-based deductive verification (PyVC + z3) of the notification kernel: per-session delivery contract of _dispatch_or_pend_notifications, call-site assertions on every EXPUNGE/EXISTS emission; view-replay oracle on the real server (bounded)",
+        category="other",
+        text="Proved for all mailbox states and any number of sessions: _dispatch_or_pend_notifications gives every selected session except the excluded one exactly the notifications, in order, once - pushed if idling, otherwise appended behind what is already queued; "
+             "every '* n EXPUNGE' expunge() emits carries n = position+1 of the message being removed in the list as it is at that moment (1 <= n <= size before removal), highest first, with the text equal to that number; "
+             "after the recorded fix, check_new_msgs_and_flags announces a new EXISTS count directly only to sessions with an empty queue (or idling) and otherwise queues it behind the pending EXPUNGEs.",
+        note="Partial: the linking invariant between each session's replayed view and the server list across whole histories (DESIGN J), the pending_expunges() gates in do_fetch/do_store/do_search and selected() are not under contract; "
+             "the whole-history statement is covered only by the bounded view-replay oracle (156 scripted two-session histories).",
+        assumptions=["z3 sound", "PyVC encoding (DESIGN 2.2)", "ClientProxy.push hands data to the socket in order (A-ASYNC)", "distinct sessions are distinct objects (class invariant clients-injective)"],
+        not_decided="view/list linking invariant over histories; gates for non-UID commands; IDLE/DONE",
+    ),
+    "C06": dict(
+        design_ref="DESIGN.md 7 C06",
+        technique="contract-based deductive verification (PyVC + z3 string theory) of BaseClientHandler.command with every do_<command> handler abstracted by one assumed contract; end-to-end 'answered promptly' oracle (bounded)",
+        category="other",
+        text="BaseClientHandler.command is proved, for every handler outcome (None, False, a string, or No/Bad/TimeoutError/ConnectionResetError/any other exception) to push at most one line carrying the command's tag, after all untagged data, "
+             "starting with '<tag> OK|NO|BAD ', ending in CRLF (after the recorded fix), and exactly one such line unless the handler defers its reply (IDLE). "
+             "Two recorded fixes removed the ways a command's outcome was produced by the 120 s watchdog (message set beyond the mailbox; \\Noselect mailbox after restart).",
+        note="Partial: handlers are abstracted (assumption: they push only untagged lines and return/raise as typed); the management task's wake-up obligations, ready_and_okay, the proxy loop's BAD-and-continue and DONE are not under contract - "
+             "promptness is covered only by the bounded oracle (45 commands x restart).",
+        assumptions=["z3/cvc5 sound", "PyVC encoding incl. level-1 strings (DESIGN 2.2)", "every do_<command> pushes only untagged lines (abstraction do_any)", "A-ASYNC"],
+        not_decided="liveness (wake-ups) beyond the bounded oracle; unparsable commands in the proxy loop",
+    ),
+    "C07": dict(
+        design_ref="DESIGN.md 7 C07",
+        technique="contract-based deductive verification (PyVC + z3/cvc5 strings) of the tagged-reply builder (command) and of POP3 RETR framing; other response builders not yet under contract",
+        category="other",
+        text="Proved: every tagged reply built by BaseClientHandler.command - OK, NO, BAD, the watchdog BAD and the unhandled-exception BAD - is one CRLF-terminated line beginning '<tag> OK|NO|BAD ' (recorded fix: two replies lacked CRLF); "
+             "the POP3 RETR reply equals status line + dot-stuffed rendering + terminator (C20).",
+        note="Narrow: clauses (b)-(e) (literal counts, quoted-string escaping in ENVELOPE/BODYSTRUCTURE/LIST/LSUB/STATUS, parenthesis balance, round-trip of decoded strings) are not decided; DESIGN F17/F18/F19 (unescaped quotes, missing SP, CR/LF echoed in NO/BAD text) remain suspected, unconfirmed by a contract.",
+        assumptions=["z3/cvc5 sound", "PyVC level-1 string encoding", "handlers push only untagged lines"],
+        not_decided="(b) literal framing, (c) quoted strings, (d) parentheses, (e) round trip",
+    ),
 }
